@@ -13,6 +13,18 @@ def objects(rng, tier):
     for i in range(900 if tier == 'quick' else 3000):
         big.append('frame 0 - 2 x61 3f800000 40000000 40400000 00000000 x62 3f800000 40000000 40400000 00000000 0')
     out.append(('several-buffers', big))
+    # wide frames: 80 points per frame and no analog data (one frame is larger than the threshold above which a stream
+    # hands a block straight to the operating system instead of its buffer), and the same with analog data
+    names = [b'w%02d' % i for i in range(80)]
+    wide = ['new 0'] + ['point 0 ' + hx(n) for n in names] + ['P.new x52415445 x', 'P.set F 0 1 42c80000', 'param 0 x504f494e54']
+    lit = '80 ' + ' '.join('%s 3f800000 40000000 40400000 00000000' % hx(n) for n in names) + ' 0'
+    for i in range(25): wide.append('frame 0 - ' + lit)
+    out.append(('wide-frames', wide))
+    widea = ['new 0'] + ['point 0 ' + hx(n) for n in names] + ['analog 0 x6368', 'P.new x52415445 x', 'P.set F 0 1 42c80000', 'param 0 x504f494e54',
+                                                               'P.new x52415445 x', 'P.set F 0 1 42c80000', 'param 0 x414e414c4f47']
+    lita = '80 ' + ' '.join('%s 3f800000 40000000 40400000 00000000' % hx(n) for n in names) + ' 1 1 x6368 3f000000'
+    for i in range(25): widea.append('frame 0 - ' + lita)
+    out.append(('wide-frames-with-analogs', widea))
     return out
 
 def run(rep, work, rng, tier):
